@@ -151,3 +151,4 @@ blocker_harness!(4, fn c04_prec_tag_on() { prec_kernel(true, true); });
 
 
 
+
